@@ -411,6 +411,10 @@ def run(plan: dict) -> dict:
                     if op.get("what") == "garbage":
                         f.write(bytes(r.getrandbits(8) for _ in range(int(op.get("n", 4096)))))
                 stats["interferences"] += 1
+                # the planted file replaces whatever sidecar the last export to this path
+                # wrote: the pair on disk is no longer what an export delivered, so nothing
+                # is expected of it until the next export (which must not pick the plant up)
+                m.expected[op["path"]] = None
                 log.add(i=idx, op="interfere", path=op["path"], what=op.get("what"))
                 continue
             if kind == "export_proto":
